@@ -90,9 +90,9 @@ def balUnits (b : Nat) : UInt64 := UInt64.ofNat (b / unit)
 /-- the environment of the native call issued by `chargeCostGas`: a fresh `SmartContract` (no calling context), the
 transaction's signature addresses (only membership of the payer matters), ONG total supply; the ONT-only fields are
 never read by an ONG transfer -/
-def feeEnv (payer : Addr) (witness : Bool) : OntVerif.Model.Token.Env :=
+def feeEnv (supply : Nat) (payer : Addr) (witness : Bool) : OntVerif.Model.Token.Env :=
   { signers := if witness then [payer] else [], caller := none, time := 0, preExec := false, genesis := 0, D := 0,
-    ontAddr := 0, govAddr := 0, ontSupply := 0, ongSupply := totalSupplyV2, calcOng := fun _ _ _ => none }
+    ontAddr := 0, govAddr := 0, ontSupply := 0, ongSupply := supply, calcOng := fun _ _ _ => none }
 
 /-- a token state whose ONG balances are `view` -/
 def tokSt (view : Addr → Nat) : OntVerif.Model.Token.St :=
@@ -103,14 +103,19 @@ inductive FeeRes
   | rejected                   -- the native call returned an error
   | panic                      -- Go panic inside the token contract
 
-/-- `chargeCostGas`: ONG `transfer` of the single state `{payer, gov, v}` (version-1 amount: `v·1e9` base units) -/
-def feeTransfer (view : Addr → Nat) (payer gov : Addr) (witness : Bool) (v : UInt64) : FeeRes :=
-  match OntVerif.Model.Token.exec (feeEnv payer witness) (tokSt view)
-      (.transfer .ong [⟨payer, gov, v.toNat * unit⟩]) with
+def feeResOf : OntVerif.Model.Token.Res × OntVerif.Model.Token.St → FeeRes
   | (.ok, s') => .ok s'.ong.bal
   | (.retFalse, _) => .rejected
   | (.err .panic, _) => .panic
   | (.err _, _) => .rejected
+
+/-- ONG `transfer` of the single state `{payer, gov, amt}` (base units) through the token model of C06 -/
+def feeTransferAmt (supply : Nat) (view : Addr → Nat) (payer gov : Addr) (witness : Bool) (amt : Nat) : FeeRes :=
+  feeResOf (OntVerif.Model.Token.exec (feeEnv supply payer witness) (tokSt view) (.transfer .ong [⟨payer, gov, amt⟩]))
+
+/-- `chargeCostGas`: version-1 amount `v`, i.e. `v·1e9` base units, against `ONG_TOTAL_SUPPLY_V2` -/
+def feeTransfer (view : Addr → Nat) (payer gov : Addr) (witness : Bool) (v : UInt64) : FeeRes :=
+  feeTransferAmt totalSupplyV2 view payer gov witness (v.toNat * unit)
 
 def calcGasByCodeLen (codeLen : Nat) (codeGas : UInt64) : UInt64 :=
   UInt64.ofNat (codeLen / perUnitCodeLen) * codeGas
